@@ -221,6 +221,24 @@ impl Runner {
                 let t = self.w.now_us;
                 self.w.log(json!({"ev":"Set","t":t,"key":key,"v":v}));
             }
+            "fates" => {
+                // explicit fates for the next datagrams of one direction, counted from now:
+                // {"do":"fates","dir":"c2s"|"s2c","list":["ok","x","dup:3000",..]}
+                let from_server = s["dir"].as_str().unwrap_or("c2s") == "s2c";
+                let list: Vec<sim::Fate> = s["list"]
+                    .as_array()
+                    .map(|a| a.iter().filter_map(|x| x.as_str()).map(sim::parse_fate).collect())
+                    .unwrap_or_default();
+                let sent = self.w.sent_count[from_server as usize];
+                let cur = if from_server { &mut self.w.fates_s2c } else { &mut self.w.fates_c2s };
+                cur.truncate(sent);
+                while cur.len() < sent {
+                    cur.push(sim::Fate::Deliver);
+                }
+                cur.extend(list);
+                let t = self.w.now_us;
+                self.w.log(json!({"ev":"Fates","t":t,"dir":s["dir"],"from":sent}));
+            }
             "migrate" => {
                 // client node changes its address
                 let n = s["n"].as_u64().unwrap_or(1) as usize;
